@@ -7,7 +7,7 @@ use serde_json::{json, Value};
 use simcore::*;
 use std::collections::BTreeSet;
 
-const MODES: [&str; 16] = ["heading", "no-heading", "context-heading", "context-no-heading", "count", "files-with-matches", "files-without-match", "json", "files", "quiet", "sorted",
+const MODES: [&str; 17] = ["stdout-in-tree", "heading", "no-heading", "context-heading", "context-no-heading", "count", "files-with-matches", "files-without-match", "json", "files", "quiet", "sorted",
     // modes whose blocks cannot be told apart by a path (-I) or whose terminators are not "\n":
     // compared as multisets of output lines (every separator and terminator counts)
     "heading-no-filename", "context-no-filename", "crlf-context", "crlf-heading", "null-data-context"];
@@ -182,7 +182,8 @@ fn args_for(w: &Workload, threads: usize) -> Vec<String> {
     let mut a: Vec<String> = vec!["--no-config".into(), "--color=never".into(), format!("-j{threads}")];
     match w.mode.as_str() {
         "heading" => a.extend(["--heading".into(), "-n".into()]),
-        "no-heading" => a.extend(["--no-heading".into(), "-n".into()]),
+        // (standard output is a file inside the searched directory, as with `rg pat dir > dir/out`)
+        "no-heading" | "stdout-in-tree" => a.extend(["--no-heading".into(), "-n".into()]),
         "context-heading" => a.extend(["--heading".into(), "-n".into(), "-C1".into()]),
         "context-no-heading" => a.extend(["--no-heading".into(), "-n".into(), "-C1".into()]),
         "count" => a.push("-c".into()),
@@ -334,7 +335,7 @@ pub fn blocks_tolerating(mode: &str, out: &[u8], failed: Option<&str>) -> Result
             }
             Ok(v)
         }
-        "no-heading" => {
+        "no-heading" | "stdout-in-tree" => {
             let mut v: Vec<Vec<u8>> = vec![];
             let mut cur_path: Option<Vec<u8>> = None;
             let mut seen = BTreeSet::new();
@@ -482,6 +483,9 @@ fn judge(w: &Workload, ref_blocks: &[Vec<u8>], reference: &RunOut, got: &RunOut)
     if w.mode != "quiet" && sorted_lines(&got.stderr) != sorted_lines(&reference.stderr) {
         return Some(("stderr-differs".into(), format!("stderr differs: {:?} vs {:?}", show(&got.stderr), show(&reference.stderr))));
     }
+    if w.mode == "stdout-in-tree" && lines(&got.stdout).iter().any(|l| l.starts_with(b"w/zz-out.txt")) {
+        return Some(("searched-its-own-output".into(), "standard output is w/zz-out.txt, and results from that file are in it".into()));
+    }
     if w.mode == "sorted" {
         if got.stdout != reference.stdout {
             return Some(("sorted-output-differs".into(), "--sort path output is not byte-identical to the single-threaded output".into()));
@@ -591,7 +595,8 @@ pub fn run_workload(sub: u64, only_seed: Option<u64>, acc: &mut Acc, ctx: &Ctx, 
         acc.mix.inc(&format!("flag:{f}"));
     }
     // single-threaded reference: no scheduler involved
-    let ref_spec = RunSpec { args: args_for(&w, 1), plan: plan.clone(), ..RunSpec::default() };
+    let stdout_file = if w.mode == "stdout-in-tree" { Some("w/zz-out.txt".to_string()) } else { None };
+    let ref_spec = RunSpec { args: args_for(&w, 1), plan: plan.clone(), stdout_file: stdout_file.clone(), ..RunSpec::default() };
     let reference = ctx.run(&cwd, &ref_spec, 60);
     acc.evals += 1;
     let mut digest = digest_out(sub, &reference);
@@ -611,7 +616,7 @@ pub fn run_workload(sub: u64, only_seed: Option<u64>, acc: &mut Acc, ctx: &Ctx, 
                 continue;
             }
         }
-        let spec = RunSpec { args: args_for(&w, w.threads), plan: plan.clone(), sched: Some(sched), ..RunSpec::default() };
+        let spec = RunSpec { args: args_for(&w, w.threads), plan: plan.clone(), sched: Some(sched), stdout_file: stdout_file.clone(), ..RunSpec::default() };
         let got = ctx.run(&cwd, &spec, 60);
         acc.evals += 1;
         digest = digest_out(digest, &got);
